@@ -238,7 +238,7 @@ func c13SendersFor(c *Ctx, rule string) {
 				// a leaf through phi?
 				okAll := true
 				for _, lf := range leaves(fl, retValue(r, 0), r) {
-					lk := fl.K.Key(lf.Val)
+					lk := lf.KeyIn(fl)
 					if !(strings.HasPrefix(lk, "(*hs/security/blockchain.Blockchain).LocalGet(") && strings.Contains(lk, ", p2)")) && lk != "nil" {
 						okAll = false
 					}
